@@ -118,3 +118,33 @@ def test_displacement_and_half_max_tolerance():
     got = float(ps.gaussian_hp(x, 1, mu, s) / ps.gaussian_hp(mu, 1, mu, s))
     assert abs(got - 0.5) / 0.5 <= ps.half_max_tolerance(mu, x, h)
     assert abs(got - 0.5) / 0.5 > 1e-12  # and is needed
+
+
+def test_ordering_classes():
+    for n in (4, 7, 83):
+        cl = ps.ordering_classes(n)
+        for name, idx in cl.items():
+            assert ps.is_permutation_with_repeats(idx, n), name
+            if name not in ('all_equal_to_middle',):
+                assert set(idx.tolist()) == set(range(n)), name  # every point is still evaluated
+        assert cl['descending'].tolist() == list(range(n - 1, -1, -1))
+        # both end points on the same side, interior holds the rest
+        assert sorted((cl['low_ends'][0], cl['low_ends'][-1])) == [0, 1]
+        assert sorted((cl['high_ends'][0], cl['high_ends'][-1])) == [n - 2, n - 1]
+        assert sorted((cl['tiled_low_ends'][0], cl['tiled_low_ends'][-1])) == [0, 1]
+        assert len(cl['each_twice']) == 2 * n and cl['each_twice'][0] == cl['each_twice'][1]
+        assert len(set(cl['interleaved'].tolist())) == n
+        assert abs(cl['centre_out'][0] - (n - 1) / 2) <= 0.5 and cl['centre_out'][-1] in (0, n - 1)
+    assert ps.ordering_classes(7)['low_ends'].tolist() == [0, 2, 3, 4, 5, 6, 1]
+    assert ps.ordering_classes(7)['high_ends'].tolist() == [6, 0, 1, 2, 3, 4, 5]
+
+
+def test_model_state():
+    s = ps.ModelState(['amplitude', 'loc'], 'p_')
+    assert s.param_names == {'p_amplitude', 'p_loc'}
+    t = s.after('with_prefix', 'q')
+    assert t.param_names == {'qamplitude', 'qloc'} and s.prefix == 'p_'
+    for op in ('call', 'names', 'add', 'guess', 'fwhm', 'copy', 'deepcopy', 'bounds'):
+        assert s.after(op).param_names == s.param_names
+    assert t.after('with_prefix', '').param_names == {'amplitude', 'loc'}
+    assert s.rename({'loc': 1}) == {'p_loc': 1}
